@@ -8,7 +8,9 @@
    program is built with a stand-in source of exactly N bytes.  Justified by Properties_C04_huge.v, theorem
    ring_overlong_calls_irrelevant (with ring_overlong_programs): two writer programs that differ only in the
    sources of calls whose sources both have >= N bytes give, on every schedule, the same access trace, the same
-   results and the same memory.  The spec side (byte queue of capacity N-1) refuses such a call outright. *)
+   results and the same memory.  The spec side (byte queue of capacity N-1) refuses such a call outright.
+   R<n> / P<n> / K<n> with n up to 2^32-1 need nothing special: the model's RRead/RPeek/RSkip take the size as a
+   number (OCaml ints are 63-bit), and the byte queue never holds that many bytes, so the spec side refuses. *)
 module String = Stdlib.String
 module List = Stdlib.List
 module Array = Stdlib.Array
